@@ -39,7 +39,10 @@ func cmdSubs(args []string) int {
 	} else {
 		r := rand.New(rand.NewSource(*seed))
 		for i := 0; i < *n; i++ {
+			// every fifth scenario: waits that share one context
+			subsdrv.SharedCtx = i%5 == 2
 			scs = append(scs, subsdrv.RandScenario(r, *ops, *schema && i%3 == 0, i%4 == 0))
+			subsdrv.SharedCtx = false
 		}
 	}
 	res := make([][]any, len(scs))
